@@ -39,6 +39,71 @@ type c03Action struct {
 	// Reg (flip actions): 0 = the coarse region A%6 selects (type / reserved / session id / counter / whole body / tag);
 	// 1.. = a fine region, see c03FlipRange (the body is cut into blocks of the width of the AEAD's permutation)
 	Reg int `json:"reg,omitempty"`
+	// Fld, Mask (header-alteration actions, kinds 11 and 12): which cleartext field of the 16-byte header is rewritten and how.
+	// Fld 0: the type byte is REPLACED by another defined message type (c03DefinedTypes[A mod n]; the datagram's own type
+	// is never chosen: the other session type takes its place); 1..4: type byte / 3 reserved bytes / session id / counter
+	// are XORed with the low bytes of Mask (big endian, any number of bits; a mask that is zero on the field becomes 1)
+	Fld  int    `json:"fld,omitempty"`
+	Mask uint64 `json:"mask,omitempty"`
+}
+
+// c03DefinedTypes: every message type the protocol defines (the two session types come first and more often: a datagram
+// whose type becomes the OTHER session type passes every syntactic check of the receiver, only authentication stops it)
+var c03DefinedTypes = []MessageType{MessageTypeControl, MessageTypeTransport, MessageTypeControl, MessageTypeTransport,
+	MessageTypeClientHello, MessageTypeServerHello, MessageTypeClientAck, MessageTypeServerAuth, MessageTypeClientAuth,
+	MessageTypeClientRequestHidden, MessageTypeServerResponseHidden, MessageTypeControl, MessageTypeTransport}
+
+var c03HeaderFields = []string{"type-replaced-by-defined-type", "type-xor-mask", "reserved-xor-mask", "session-id-xor-mask", "counter-xor-mask"}
+
+// c03AlterHeader rewrites one cleartext header field of the datagram b in place (see c03Action.Fld); it returns a label.
+func c03AlterHeader(a c03Action, b []byte) string {
+	if len(b) < AssociatedDataLen {
+		return ""
+	}
+	fld := a.Fld % len(c03HeaderFields)
+	if fld < 0 {
+		fld = 0
+	}
+	if fld == 0 {
+		idx := a.A % len(c03DefinedTypes)
+		if idx < 0 {
+			idx = 0
+		}
+		nt := byte(c03DefinedTypes[idx])
+		if nt == b[0] {
+			if b[0] == byte(MessageTypeTransport) {
+				nt = byte(MessageTypeControl)
+			} else {
+				nt = byte(MessageTypeTransport)
+			}
+		}
+		b[0] = nt
+		if nt == byte(MessageTypeTransport) || nt == byte(MessageTypeControl) {
+			return "header-altered:type-replaced-by-the-other-session-type"
+		}
+		return "header-altered:type-replaced-by-a-handshake-type"
+	}
+	lo, hi := 0, 1
+	switch fld {
+	case 2:
+		lo, hi = 1, HeaderLen
+	case 3:
+		lo, hi = HeaderLen, HeaderLen+SessionIDLen
+	case 4:
+		lo, hi = HeaderLen+SessionIDLen, AssociatedDataLen
+	}
+	m := a.Mask
+	if w := hi - lo; w < 8 {
+		m &= 1<<(8*uint(w)) - 1
+	}
+	if m == 0 {
+		m = 1
+	}
+	for i := hi - 1; i >= lo; i-- {
+		b[i] ^= byte(m)
+		m >>= 8
+	}
+	return "header-altered:" + c03HeaderFields[fld]
 }
 
 // c03Fault disturbs the SENDING side of one endpoint (the network itself stays faithful).
@@ -130,7 +195,7 @@ func c03FlipRange(reg, a, L int) (lo, hi int) {
 	return lo, hi
 }
 
-var c03Kinds = []string{"drop", "duplicate", "hold", "flip-copy", "truncate-copy", "extend-copy", "reflect-copy", "cross-session-copy", "forged", "flip-in-flight", "late-duplicate"}
+var c03Kinds = []string{"drop", "duplicate", "hold", "flip-copy", "truncate-copy", "extend-copy", "reflect-copy", "cross-session-copy", "forged", "flip-in-flight", "late-duplicate", "alter-header-copy", "alter-header-in-flight"}
 
 type c03Case struct {
 	Hidden   bool          `json:"hidden"`
@@ -216,7 +281,7 @@ func (r *c03RunT) fail(sig, f string, a ...any) {
 	}
 }
 
-func c03Destructive(k int) bool { return k == 0 || k == 2 || k == 9 }
+func c03Destructive(k int) bool { return k == 0 || k == 2 || k == 9 || k == 12 }
 
 func c03Scenario(c c03Case, v *vlib.Verdict) {
 	r := &c03RunT{c: c, v: v}
@@ -262,6 +327,8 @@ func c03Scenario(c c03Case, v *vlib.Verdict) {
 	}
 	var held []heldT
 	var flipAlignedLast, flipLast atomic.Bool // (classification only)
+	var alterMu sync.Mutex
+	altered := map[string]bool{} // (classification only) header alterations that met a datagram
 	sid1 := cli.ss.sessionID
 	env.Net.Filter = func(d simnet.Datagram) []simnet.Datagram {
 		if len(d.Data) == 0 || (d.Data[0] != byte(MessageTypeTransport) && d.Data[0] != byte(MessageTypeControl)) {
@@ -332,6 +399,21 @@ func c03Scenario(c c03Case, v *vlib.Verdict) {
 					}
 				}
 				if a.Kind == 9 {
+					deliverOrig = false
+					post = append(post, x)
+				} else {
+					pre = append(pre, x)
+				}
+			case 11, 12:
+				// a cleartext header field is rewritten (another VALID type, or any multi-bit change of a field); the copy
+				// arrives before the original (11) or instead of it (12)
+				x := clone()
+				if lab := c03AlterHeader(a, x.Data); lab != "" {
+					alterMu.Lock()
+					altered[lab] = true
+					alterMu.Unlock()
+				}
+				if a.Kind == 12 {
 					deliverOrig = false
 					post = append(post, x)
 				} else {
@@ -866,6 +948,11 @@ func c03Scenario(c c03Case, v *vlib.Verdict) {
 			}
 		}
 	}
+	alterMu.Lock()
+	for lab := range altered {
+		v.Label(lab)
+	}
+	alterMu.Unlock()
 	if flipAlignedLast.Load() {
 		v.Label("flip-in-last-block-of-a-message-of-whole-blocks")
 	}
@@ -1061,6 +1148,31 @@ func c03GenInterrupted(t *rapid.T, c c03Case) c03Case {
 	return c
 }
 
+// c03GenHeaderAlteration draws what a header-alteration action does: mostly the type byte becomes another defined type,
+// otherwise a field is XORed with a mask of any weight (all 64 bits uniform, a sparse mask, or the difference of two
+// defined type values in every byte position).
+func c03GenHeaderAlteration(t *rapid.T) (fld int, mask uint64) {
+	fld = rapid.SampledFrom([]int{0, 0, 0, 1, 2, 3, 4}).Draw(t, "field")
+	if fld == 0 {
+		return fld, 0
+	}
+	mask = rapid.OneOf(
+		rapid.Uint64Range(1, ^uint64(0)),
+		rapid.Custom(func(t *rapid.T) uint64 {
+			var m uint64
+			for _, b := range rapid.SliceOfN(rapid.IntRange(0, 63), 2, 5).Draw(t, "bits") {
+				m |= 1 << uint(b)
+			}
+			return m
+		}),
+		rapid.Custom(func(t *rapid.T) uint64 {
+			x := rapid.SampledFrom(c03DefinedTypes).Draw(t, "typeA") ^ rapid.SampledFrom(c03DefinedTypes).Draw(t, "typeB")
+			return uint64(x) << (8 * uint(rapid.IntRange(0, 7).Draw(t, "byte")))
+		}),
+	).Draw(t, "mask")
+	return fld, mask
+}
+
 func c03Gen(t *rapid.T) c03Case {
 	c := c03Case{Hidden: rapid.Bool().Draw(t, "hidden"), Two: rapid.Bool().Draw(t, "two")}
 	c.Fam = rapid.SampledFrom([]int{0, 0, 0, 1, 2}).Draw(t, "fam")
@@ -1143,6 +1255,9 @@ func c03Gen(t *rapid.T) c03Case {
 			if a.Kind == 3 || a.Kind == 9 {
 				// where the flipped bit lies: a coarse region (0) or a fine one (see c03FlipRange)
 				a.Reg = rapid.SampledFrom([]int{0, 0, 1, 3, 6, 7, 2, 4, 5}).Draw(t, "region")
+			}
+			if a.Kind == 11 || a.Kind == 12 {
+				a.Fld, a.Mask = c03GenHeaderAlteration(t)
 			}
 			return a
 		}), 1, 10).Draw(t, "script")
